@@ -423,7 +423,7 @@ func (w *world) genScenario(r *vh.RNG) *scenario {
 			out := []*txDesc{w.vestTx(r, s.name, "proven-previous-block", a.Addr, route, d)}
 			if r.Bool() { // and somebody proves the address once more (before or after the creation): the proof is final
 				x := w.take(r)
-				rep := w.proofTx(s.name, "proof:repeat-after-refused-creation", x, x, []proofItem{{Account: a.Addr, Sig: makeSig(r, a.Key, vh.Pick(r, []string{"valid", "malleated"})), Kind: "repeat"}}, "top", 0, nil, false)
+				rep := w.proofTx(s.name, "proof:repeat-after-refused-creation", x, x, []proofItem{{Account: a.Addr, Sig: makeSig(r, a.Key, vh.Pick(r, []string{"valid", "malleated"})), Kind: "repeat"}}, "top", 0, nil, r.Chance(1, 3))
 				if r.Bool() {
 					out = append(out, rep)
 				} else {
@@ -518,7 +518,7 @@ func (w *world) genScenario(r *vh.RNG) *scenario {
 			if k2 != "same" {
 				sg = makeSig(r, a.Key, k2)
 			}
-			return []*txDesc{w.proofTx(s.name, "proof:followup-"+k2, x, x, []proofItem{{Account: a.Addr, Sig: sg, Kind: "followup-" + k2}}, "top", 0, nil, false)}
+			return []*txDesc{w.proofTx(s.name, "proof:followup-"+k2, x, x, []proofItem{{Account: a.Addr, Sig: sg, Kind: "followup-" + k2}}, "top", 0, nil, r.Chance(1, 3))}
 		}
 	case k < 87: // submitter balance around fixed fee + tx fee
 		s.name = "proof-balance-edge"
@@ -583,7 +583,7 @@ func (w *world) genScenario(r *vh.RNG) *scenario {
 		}
 		s.steps[2] = func() []*txDesc { // third attempt in a later block
 			x := w.take(r)
-			return []*txDesc{w.proofTx(s.name, "proof:repeat-later-block", x, x, []proofItem{{Account: a.Addr, Sig: makeSig(r, a.Key, vh.Pick(r, []string{"valid", "malleated"})), Kind: "repeat"}}, "top", 0, nil, false)}
+			return []*txDesc{w.proofTx(s.name, "proof:repeat-later-block", x, x, []proofItem{{Account: a.Addr, Sig: makeSig(r, a.Key, vh.Pick(r, []string{"valid", "malleated"})), Kind: "repeat"}}, "top", 0, nil, r.Chance(1, 2))}
 		}
 	default: // submitter = account
 		s.name = "proof-self"
